@@ -35,6 +35,7 @@ func diffRun(label, src string, inputs []diffInput, opt Options) {
 	base := L.GetTop()
 	fn, lerr := L.LoadString(src)
 	VAssert(lerr == nil, "diff: template loads: "+label)
+	VAssert(wfProto(fn.Proto) == "", "diff: compiled prototype is well-formed (C07): "+label)
 	L.Push(fn)
 	ierr := L.PCall(0, MultRet, nil)
 	var iresults []LValue
@@ -218,6 +219,127 @@ func c01Inputs(kind string) []diffInput {
 //verif:harness prop=C01 tier=quick bounds="60 program templates organised by compiler special case (multiple assignment shapes, destination kinds, relational/logical contexts, loops, goto, tables, closures, varargs, errors, coercions); inputs: 3 symbolic float64 / 3 symbolic 32-bit integers / 2 values of any scalar type"
 func H_C01_tmpl() {
 	t := c01Templates[VChoice(len(c01Templates))]
+	diffRun(t.src, t.src, c01Inputs(t.kind), Options{})
+	VReach("end")
+}
+
+
+var c02Templates = []diffTmpl{
+	// parameters: missing are nil, surplus dropped or collected
+	{"local function f(a, b, c) emit(a, b, c) end; f(); f(x); f(x, y); f(x, y, z); f(x, y, z, 1)", "num"},
+	{"local function f(a, ...) emit(a, select('#', ...), ...) end; f(); f(x); f(x, y); f(x, y, z)", "num"},
+	{"local function f(...) local a, b, c = ...; emit(a, b, c, select('#', ...)) end; f(x); f(x, y, z, 1)", "num"},
+	// result contexts
+	{"local function r0() end; local function r2() return x, y end; emit(r0()); emit((r0())); emit(r2()); emit((r2())); emit(r2(), z); emit(z, r2())", "num"},
+	{"local function r3() return x, y, z end; local a, b = r3(); local c, d, e, f = r3(); emit(a, b, c, d, e, f)", "num"},
+	{"local function r2() return x, y end; local t = {r2(), r2()}; emit(#t, t[1], t[2], t[3]); local u = {r2(), k = 1}; emit(#u, u[1], u[2])", "num"},
+	{"local function r2() return x, y end; local function id(...) return ... end; emit(id(r2())); emit(id(r2(), z)); emit(id((r2())))", "num"},
+	{"local function r2() return x, y end; local function g() return r2() end; local function h() return (r2()) end; emit(g()); emit(h())", "num"},
+	{"local function v(...) return ... end; emit(v()); emit(v(nil)); emit(v(nil, nil)); emit(select('#', v(nil, nil)))", "num"},
+	// host callee (emit is a Go function returning nothing; select/unpack/next are Go functions)
+	{"emit(select(2, x, y, z)); emit(select('#', x, nil, nil)); emit((select(1, x, y)))", "num"},
+	{"local t = {x, y, z}; emit(unpack(t)); emit(unpack(t, 2)); emit(unpack(t, 2, 3)); emit(unpack(t, 3, 2)); emit((unpack(t)))", "num"},
+	{"local t = {x, y, z}; local a, b = unpack(t); local c, d, e, f = unpack(t); emit(a, b, c, d, e, f)", "num"},
+	// method sugar
+	{"local o = {k = x}; function o:get(d) return self.k + d end; function o.plain(s, d) return s.k - d end; emit(o:get(y), o.get(o, z), o:plain(y))", "num"},
+	{"local o = {k = x, sub = {k = y}}; function o.sub:m(...) return self.k, ... end; emit(o.sub:m(z, 1))", "num"},
+	// __call
+	{"local c = setmetatable({}, {__call = function(self, a, b) return a, b, self == nil end}); emit(c(x, y)); emit((c(x)))", "num"},
+	// tail calls
+	{"local function loop(n, acc) if n == 0 then return acc end; return loop(n - 1, acc + x) end; emit(loop(60, 0))", "int"},
+	{"local function a(n) if n == 0 then return x, y end; return a(n - 1) end; emit(a(3)); local p, q, r = a(2); emit(p, q, r)", "num"},
+	{"local function f(...) return select('#', ...) end; local function g(...) return f(...) end; emit(g(), g(x), g(x, nil), g(nil, nil, nil))", "num"},
+	// nesting
+	{"local function f(a, b) return a + b, a - b end; local function g(...) return f(...) end; emit(g(f(x, y)))", "num"},
+	{"local function mk() return function(a) return a, x end end; emit(mk()(y)); emit((mk()(y)))", "num"},
+}
+
+// C02.tmpl — call and return adjustment, whole pipeline against R-lua.
+//
+//verif:harness prop=C02 tier=quick bounds="20 call templates: 0..3 fixed parameters x vararg x 0..4 arguments x result contexts (statement, parenthesised, middle, last in argument list / return / constructor / assignment), Lua and Go callees, method sugar, __call, tail calls incl. depth 60 > CallStackSize 32; inputs 3 symbolic float64 (or 32-bit ints)"
+func H_C02_tmpl() {
+	t := c02Templates[VChoice(len(c02Templates))]
+	diffRun(t.src, t.src, c01Inputs(t.kind), Options{CallStackSize: 32})
+	VReach("end")
+}
+
+var c03Templates = []diffTmpl{
+	{"local f; do local v = x; f = function() return v end end; local function g(p, q, r) local u, w = 91, 92; return u end; g(1, 2, 3); emit(f())", "num"},
+	{"local fs = {}; for i = 1, 3 do local v = x + i; fs[i] = function() v = v + 1; return v end end; emit(fs[1](), fs[1](), fs[2](), fs[3]())", "int"},
+	{"local fs = {}; local i = 0; while i < 3 do i = i + 1; local v = i + x; fs[i] = function() return v end; if i == 2 then break end end; emit(fs[1](), fs[2](), fs[3])", "int"},
+	{"local fs = {}; local i = 0; repeat i = i + 1; local v = i * x; fs[i] = function() return v end until v == v and i >= 2; emit(fs[1](), fs[2]())", "int"},
+	{"local get, set; do local v = x; get = function() return v end; set = function(n) v = n end end; set(y); emit(get()); set(z); emit(get())", "num"},
+	{"local function mk() local v = x; return function() v = v + 1; return v end, function() return v end end; local inc, get = mk(); inc(); inc(); emit(get())", "int"},
+	{"local f; for k, v in pairs({a = x}) do f = function() return k, v end end; local function g(...) return ... end; g(1, 2, 3, 4); emit(f())", "num"},
+	{"local f; do local v = x; f = function() return v end; goto out end ::out:: local function g(a, b, c, d) return d end; g(1, 2, 3, 4); emit(f())", "num"},
+	{"local f; pcall(function() local v = x; f = function() return v end; error('e') end); local function g(a, b, c, d) local e = 5; return e end; g(1, 2, 3, 4); emit(f())", "num"},
+	{"local f; pcall(function() local v = x; f = function() return v end; local t = nil; t.k = 1 end); local function g(a, b, c, d) local e = 5; return e end; g(1, 2, 3, 4); emit(f())", "num"},
+	{"local function mk(v) return function() return v end end; local a, b = mk(x), mk(y); emit(a(), b(), a())", "num"},
+	{"local function outer() local v = x; local function mid() local function inner() v = v + y; return v end; return inner end; return mid() end; local f = outer(); emit(f(), f())", "num"},
+	{"local a = x; local function f() return a end; a = y; emit(f()); local function g() a = z end; g(); emit(a, f())", "num"},
+	{"local fs = {}; for i = 1, 2 do for j = 1, 2 do fs[#fs + 1] = function() return i * 10 + j + x end end end; emit(fs[1](), fs[2](), fs[3](), fs[4]())", "int"},
+	{"local function tail(v) local function get() return v end; return (function(...) return ... end)(get) end; local g = tail(x); local function junk(a, b, c) return c end; junk(1, 2, 3); emit(g())", "num"},
+}
+
+// C03.tmpl — closures and captured variables on every exit path, whole pipeline against R-lua.
+//
+//verif:harness prop=C03 tier=quick bounds="15 closure templates: creation in numeric/generic for, while, repeat, do-blocks and calls; scope left by fall-through, break, goto, return, tail call, caught errors; register-reusing calls before use; inputs symbolic"
+func H_C03_tmpl() {
+	t := c03Templates[VChoice(len(c03Templates))]
+	diffRun(t.src, t.src, c01Inputs(t.kind), Options{})
+	VReach("end")
+}
+
+var c04Templates = []diffTmpl{
+	{"local mt = {__add = function(a, b) return x end, __sub = function(a, b) return y end}; local o = setmetatable({}, mt); emit(o + 1, 1 + o, o - o, o + 'a')", "num"},
+	{"local log = {}; local mt = {__concat = function(a, b) return type(a) .. type(b) end}; local o = setmetatable({}, mt); emit(o .. 'a', 'a' .. o, 1 .. o, o .. o)", "num"},
+	{"local mt = {__index = function(t, k) return k .. 'x' end}; local o = setmetatable({real = x}, mt); emit(o.real, o.missing, rawget(o, 'missing'))", "num"},
+	{"local base = {inherited = x}; local o = setmetatable({own = y}, {__index = base}); emit(o.own, o.inherited, o.none); base.none = z; emit(o.none)", "num"},
+	{"local store = {}; local o = setmetatable({present = x}, {__newindex = store}); o.present = y; o.absent = z; emit(rawget(o, 'present'), rawget(o, 'absent'), store.absent)", "num"},
+	{"local n = 0; local o = setmetatable({}, {__newindex = function(t, k, v) n = n + 1; rawset(t, k, v) end}); o.a = x; o.a = y; o.b = z; emit(n, o.a, o.b)", "num"},
+	{"local mt = {__eq = function(a, b) return true end}; local a, b = setmetatable({}, mt), setmetatable({}, mt); local c = setmetatable({}, {__eq = function() return true end}); emit(a == b, a ~= b, a == c, a == a, rawequal(a, b))", "num"},
+	{"local mt = {__lt = function(a, b) return a.v < b.v end}; local a, b = setmetatable({v = x}, mt), setmetatable({v = y}, mt); emit(a < b, a > b, a <= b, a >= b)", "num"},
+	{"local mt = {__lt = function(a, b) return a.v < b.v end, __le = function(a, b) return a.v <= b.v end}; local a, b = setmetatable({v = x}, mt), setmetatable({v = y}, mt); emit(a < b, a <= b, a >= b)", "num"},
+	{"local o = setmetatable({}, {__unm = function(a) return x end, __call = function(self, a, b) return a, b end}); emit(-o, o(y, z), (o(y)))", "num"},
+	{"local o = setmetatable({}, {__call = function(self, s, c) if c < 2 then return c + 1 end end}); for i in o, nil, 0 do emit(i + x) end", "int"},
+	{"local o = setmetatable({}, {__call = function(self, v) return v end}); local function t(v) return o(v) end; emit(t(x))", "num"},
+	{"local o = setmetatable({}, {__metatable = 'locked'}); emit(getmetatable(o), (pcall(setmetatable, o, {})))", "num"},
+	{"local ok = pcall(function() return {} + 1 end); local ok2 = pcall(function() return {} < {} end); local ok3 = pcall(function() return {} .. 'a' end); emit(ok, ok2, ok3)", "num"},
+	{"local a = setmetatable({}, {__index = function(t, k) return x end}); local b = setmetatable({}, {__index = a}); local c = setmetatable({}, {__index = b}); emit(c.k, b.k, rawget(c, 'k'))", "num"},
+	{"local o = setmetatable({}, {__mul = function(a, b) return type(a), type(b) end, __div = function(a, b) return x, y end}); emit(o * 2, 2 * o, o / o)", "num"},
+}
+
+// C04.tmpl — metamethod dispatch, whole pipeline against R-lua (manual section 2.8).
+//
+//verif:harness prop=C04 tier=quick bounds="16 metamethod templates: arithmetic/concat left-then-right, __index/__newindex through functions and tables (chains <= 3), __eq identity rule, __lt/__le with fallback, __unm, __call in statement/tail/iterator position, __metatable, missing handlers; inputs symbolic"
+func H_C04_tmpl() {
+	t := c04Templates[VChoice(len(c04Templates))]
+	diffRun(t.src, t.src, c01Inputs(t.kind), Options{})
+	VReach("end")
+}
+
+var c05Templates = []diffTmpl{
+	{"local a = x; local ok, e = pcall(function() a = y; error(z) end); emit(ok, e, a)", "num"},
+	{"local ok, e = pcall(function() error({code = x}) end); emit(ok, type(e), e.code)", "num"},
+	{"local ok, e = pcall(function() error() end); emit(ok, e); local ok2, e2 = pcall(error); emit(ok2, e2)", "num"},
+	{"local ok, e = pcall(function() local t; return t.k end); emit(ok, type(e)); local ok2 = pcall(function() return x() end); emit(ok2)", "num"},
+	{"emit(1); local ok = pcall(function() emit(2); error('e'); emit(3) end); emit(4, ok)", "num"},
+	{"local ok, e = pcall(function() local ok2, e2 = pcall(function() error(x) end); emit(ok2, e2); error(y) end); emit(ok, e)", "num"},
+	{"local ok, e = pcall(pcall, error, x); emit(ok, e)", "num"},
+	{"local t = setmetatable({}, {__index = function(t, k) error(x) end}); local ok, e = pcall(function() return t.k end); emit(ok, e)", "num"},
+	{"local function iter() error(x) end; local ok, e = pcall(function() for v in iter do emit('never') end end); emit(ok, e)", "num"},
+	{"local n = 0; local function f() n = n + 1; if n < 3 then error(n) end; return n + x end; local r; repeat local ok, v = pcall(f); r = v until ok; emit(r, n)", "int"},
+	{"local ok, a, b = pcall(function(...) return ... end, x, y); emit(ok, a, b); emit(pcall(function() return end))", "num"},
+	{"local ok, e = pcall(function() assert(false, 'msg') end); emit(ok, type(e)); emit(pcall(assert, y, 'm')); emit(select('#', pcall(assert, nil)))", "num"},
+	{"emit('before'); error(x); emit('after')", "num"},
+	{"local function lvl() error({v = x}) end; local ok, e = pcall(function() lvl() end); emit(ok, e.v)", "num"},
+}
+
+// C05.tmpl — errors contained by protected calls, whole pipeline against R-lua.
+//
+//verif:harness prop=C05 tier=quick bounds="14 error templates: error values of every type, faults, nested pcall, errors inside metamethods and iterators, retry loops, side effects before/after; inputs symbolic"
+func H_C05_tmpl() {
+	t := c05Templates[VChoice(len(c05Templates))]
 	diffRun(t.src, t.src, c01Inputs(t.kind), Options{})
 	VReach("end")
 }
